@@ -57,7 +57,7 @@ def same_state(cx, label, before, after):
     cx.check(label + ":leaves", and_(*conj), note="%d numeric leaves of the registry dump" % len(conj))
 
 
-def h_overlay(cx, timeline, mr, limit_kind, menu, malformed, band=False, history=False):
+def h_overlay(cx, timeline, mr, limit_kind, menu, malformed, band=False, history=False, int_first=False):
     env.install(cx)
     A = acn()
     from acnportal.algorithms import BaseAlgorithm
@@ -92,6 +92,11 @@ def h_overlay(cx, timeline, mr, limit_kind, menu, malformed, band=False, history
             ids, L = cx.choice("shape_t%d" % t, menu)
             sched = {}
             for s in ids:
+                if int_first and s == ids[0] and len(ids) > 1:
+                    # the first entry of the mapping is a row of plain Python ints, later rows are (symbolic) floats: int / float /
+                    # numpy values may be mixed freely in one schedule
+                    sched[s] = [8 + k for k in range(L)]
+                    continue
                 # band: values inside the EVSEs' 1e-3 A acceptance band just outside [0, 32] (solver round-off) are accepted
                 # by the EVSE, hence applied and recorded as given
                 sched[s] = [cx.real("x_%s_%d_%d" % (s, t, k), lo=(-0.0009 if band else 0), hi=(32.0009 if band else 32)) for k in range(L)]
@@ -184,20 +189,21 @@ def jobs(tier):
         M2 = [(("A", "B"), 1), (("B", "A"), 2)]
         cfgs = [(T1, 1, None, MENU_Q[:5], None), (T2, None, "sym", M2, None), (T1, 2, None, M3, None),
                 (T1, 1, None, M3, "unknown_station"), (T2, 1, None, M3, "unequal"), (T1, 1, None, M2, None, True), (T1, 1, None, M3, "unequal_one"),
-                (T2, 2, None, [(("A", "B"), 3), (("A",), 2)], None, False, True)]
+                (T2, 2, None, [(("A", "B"), 3), (("A",), 2)], None, False, True), (T1, 1, None, [(("A", "B"), 1), (("B", "A"), 2)], None, False, False, True)]
     else:
         M3 = [(("A",), 1), (("B", "A"), 2), (("A", "B"), 3)]
         cfgs = [(T1, 1, None, MENU_T, None), (T2, 1, None, MENU_T, None), (T2, None, "sym", M3, None), (T1, 2, "sym", [(("A", "B"), 1), (("B", "A"), 2)], None), (T1, 3, None, MENU_T, None),
                 (T1, 1, None, MENU_Q, "unknown_station"), (T2, 1, None, MENU_Q, "unequal"), (T2, None, None, M3, "unequal"),
                 (T1, 1, None, MENU_Q, None, True), (T2, 2, None, M3, None, True), (T2, 1, None, M3, "unequal_one"), (T1, None, None, M3, "unequal_one"),
-                (T1, 1, None, MENU_Q, None, False, True), (T2, 2, "sym", M3, None, False, True)]
+                (T1, 1, None, MENU_Q, None, False, True), (T2, 2, "sym", M3, None, False, True), (T1, 1, None, MENU_Q, None, False, False, True), (T2, None, None, M3, None, False, False, True)]
     for cfg in cfgs:
         tl, mr, lim, menu, mal = cfg[:5]
         band = len(cfg) > 5 and cfg[5]
         hist = len(cfg) > 6 and cfg[6]
-        name = "overlay[tl=%s,mr=%s,limit=%s,menu=%d,malformed=%s%s%s]" % ("".join("%s%d%d" % x for x in tl), mr, lim, len(menu), mal, ",band" if band else "", ",schedule_history" if hist else "")
+        intf = len(cfg) > 7 and cfg[7]
+        name = "overlay[tl=%s,mr=%s,limit=%s,menu=%d,malformed=%s%s%s%s]" % ("".join("%s%d%d" % x for x in tl), mr, lim, len(menu), mal, ",band" if band else "", ",schedule_history" if hist else "", ",int_row_first" if intf else "")
         tags = ("malformed_submitted",) if mal else ("terminated", "schedule_beyond_horizon") + (("long_schedule_in_last_period",) if max(m[1] for m in menu) > 1 else ()) + (("empty_schedule",) if menu[0][1] == 0 else ()) + (("infeasible_schedule_only_warned",) if lim else ())
-        js.append(Job(name, h_overlay, dict(timeline=tl, mr=mr, limit_kind=lim, menu=menu, malformed=mal, band=band, history=hist), functions=FUNCS, expect_tags=tags,
+        js.append(Job(name, h_overlay, dict(timeline=tl, mr=mr, limit_kind=lim, menu=menu, malformed=mal, band=band, history=hist, int_first=intf), functions=FUNCS, expect_tags=tags,
                       max_paths=200000, timeout=3000,
                       bounds=dict(stations=2, periods=4, invocations="<=4", shapes_per_invocation=len(menu), lengths="1..3", max_recompute=mr, constraint=lim, pilot_values=("[-0.0009, 32.0009]" if band else "[0, 32]"), store_schedule_history=bool(hist)),
                       cost=len(menu) ** (4 if mr == 1 else 3) * (2 if lim else 1)))
